@@ -362,8 +362,11 @@ Definition prop_cli_with (hok : bytes -> bytes -> option bool) (hdrdec : bytes -
              end
       end
     else if is_t cmd "list" then
-      (* through a pipe as from a file (CliCmds.list_car_stdin with the fix) *)
-      if ok && cids_eqb (vcids (vnth 1 obs)) (map fst (a_blocks a0)) then VT "ok"%string
+      (* through a pipe as from a file (CliCmds.list_car_stdin with the fix); (stdin verbose corrupt):
+         corrupt = one data byte of the described archive flipped -- the listing must fail *)
+      if vbool (vnth 2 flags) then
+        (if ok then fail2 "list-accepts-corrupt-block" "list-corrupt" else VT "ok"%string)
+      else if ok && cids_eqb (vcids (vnth 1 obs)) (map fst (a_blocks a0)) then VT "ok"%string
       else fail2 "list-scan-order" (if vbool (vnth 0 flags) then "list-stdin" else "list")
     else if is_t cmd "listunixfs" then
       let '(ls, mok) := ulist_roots (map RunFs.v_uroot (vL (vnth 2 flags))) in
